@@ -134,6 +134,209 @@ fn obs_islice(m: &[u8], start: usize) -> String {
     }).unwrap_or_else(|_| "Panic".into())
 }
 
+
+// ------------------------------------------------- T2: derived name operations
+
+fn name_start(m: &[u8], n: &ParsedName<&[u8]>) -> usize {
+    n.iter().next().map(|l| (l.as_slice().as_ptr() as usize).wrapping_sub(m.as_ptr() as usize).wrapping_sub(1)).unwrap_or(usize::MAX)
+}
+
+fn obs_pops(m: &[u8], pos: usize, lim: usize) -> String {
+    let m2 = m.to_vec();
+    catch(move || {
+        let m = &m2[..];
+        let mut p = Parser::with_range(m, pos..lim);
+        let n = match ParsedName::parse(&mut p) { Err(e) => return format!("Err {}", err_word(&e)), Ok(n) => n };
+        let rev: Vec<String> = n.iter().rev().map(|l| if l.is_root() { ".".to_string() } else { hex(l.as_slice()) }).collect();
+        let mut split = vec![];
+        let mut a = n;
+        while let Some(rel) = a.split_first() { split.push(hex(rel.as_slice())); if split.len() > 300 { break; } }
+        let mut suf = vec![];
+        for s in n.iter_suffixes() { let f = s.first(); suf.push(format!("{}:{}", s.compose_len(), if f.is_root() { ".".to_string() } else { hex(f.as_slice()) })); if suf.len() > 300 { break; } }
+        // parent() directly as well
+        let mut b = n; let mut parents = 0; while b.parent() { parents += 1; if parents > 300 { break; } }
+        let flat = match n.as_flat_slice() { Some(f) => hex(f), None => "none".to_string() };
+        format!("Ok rev={} split={} suf={} parents={} flat={}", rev.join(","), if split.is_empty() { "-".to_string() } else { split.join(",") }, suf.join(","), parents, flat)
+    }).unwrap_or_else(|_| "Panic".into())
+}
+
+// ------------------------------------------------- T2: read-side calls in any order
+
+#[derive(Clone, Copy)]
+enum Obj<'a> { Q(domain::base::QuestionSection<'a, [u8]>), R(RecordSection<'a, [u8]>) }
+
+fn typed_word(e: &ParseError) -> &'static str {
+    match e {
+        ParseError::ShortInput => "e1",
+        ParseError::Form(f) => match f.to_string().as_str() {
+            "invalid label type" => "e2",
+            "long domain name" => "e3",
+            "too many compression pointers" => "e4",
+            _ => "e5",
+        },
+    }
+}
+
+// record types without a row in the C05 schema table (coq/C05/Model.v irregular_types)
+const IRREGULAR: &[u16] = &[41, 45];
+
+fn obs_ops(bytes: &[u8], ops: &str) -> String {
+    let b2 = bytes.to_vec();
+    let ops = ops.to_string();
+    catch(move || {
+        let msg = match Message::from_slice(&b2) { Ok(m) => m, Err(_) => return "short".to_string() };
+        let mut st: Vec<Obj> = vec![];
+        let mut out: Vec<String> = vec![];
+        let push_q = |q: &Question<ParsedName<&[u8]>>| q_obs(q);
+        for o in ops.split(',') {
+            let (c, arg) = o.split_at(1);
+            let i: usize = arg.parse().unwrap_or(0);
+            let r = match c {
+                "Q" => { let q = msg.question(); st.push(Obj::Q(q)); format!("@{}", q.pos()) }
+                "A" => match msg.answer() { Ok(s) => { st.push(Obj::R(s)); format!("@{}", s.pos()) } Err(e) => format!("E{}", err_word(&e)) },
+                "U" => match msg.authority() { Ok(s) => { st.push(Obj::R(s)); format!("@{}", s.pos()) } Err(e) => format!("E{}", err_word(&e)) },
+                "D" => match msg.additional() { Ok(s) => { st.push(Obj::R(s)); format!("@{}", s.pos()) } Err(e) => format!("E{}", err_word(&e)) },
+                "n" => match st.get_mut(i) {
+                    Some(Obj::Q(q)) => match q.next() {
+                        None => "end".to_string(),
+                        Some(Err(e)) => format!("E{}", err_word(&e)),
+                        Some(Ok(x)) => format!("{}>{}", push_q(&x), q.pos()),
+                    },
+                    _ => "none".to_string(),
+                },
+                "a" => match st.get(i).copied() {
+                    Some(Obj::Q(q)) => match q.answer() { Ok(s) => { st.push(Obj::R(s)); format!("@{}", s.pos()) } Err(e) => format!("E{}", err_word(&e)) },
+                    _ => "none".to_string(),
+                },
+                "r" => match st.get_mut(i) {
+                    Some(Obj::R(s)) => match s.next() {
+                        None => "end".to_string(),
+                        Some(Err(e)) => format!("E{}", err_word(&e)),
+                        Some(Ok(x)) => format!("r({} {} {} {} {})>{}", name_obs(&x.owner()), x.rtype().to_int(), x.class().to_int(), x.ttl().as_secs(), x.rdlen(), s.pos()),
+                    },
+                    _ => "none".to_string(),
+                },
+                "s" => match st.get(i).copied() {
+                    Some(Obj::R(s)) => match s.next_section() {
+                        Ok(Some(n)) => { st.push(Obj::R(n)); format!("@{}", n.pos()) }
+                        Ok(None) => "end".to_string(),
+                        Err(e) => format!("E{}", err_word(&e)),
+                    },
+                    _ => "none".to_string(),
+                },
+                "f" => match msg.first_question() { Some(q) => q_obs(&q), None => "noq".to_string() },
+                "o" => match msg.sole_question() { Ok(q) => q_obs(&q), Err(e) => format!("E{}", err_word(&e)) },
+                "e" => format!("b{}", msg.is_answer(msg) as u8),
+                "c" => match msg.canonical_name() { Some(n) => format!("n:{}", name_obs(&n)), None => "n:none".to_string() },
+                "S" => match msg.sections() { Ok((q, a, n, r)) => format!("s {} {} {} {}", q.pos(), a.pos(), n.pos(), r.pos()), Err(e) => format!("E{}", err_word(&e)) },
+                "C" => { let c = msg.header_counts(); format!("c {} {} {} {}", c.qdcount(), c.ancount(), c.nscount(), c.arcount()) }
+                "l" => { let s = obs_islice(&b2, i); format!("l:{}", s.strip_prefix("Ok ").unwrap_or(&s)) }
+                "t" => {
+                    let mut v = vec![];
+                    for item in msg.iter() {
+                        if let Ok((r, _)) = item {
+                            if IRREGULAR.contains(&r.rtype().to_int()) { v.push("-".to_string()); continue; }
+                            match r.to_any_record::<AllRecordData<_, _>>() { Ok(_) => v.push("ok".to_string()), Err(e) => v.push(typed_word(&e).to_string()) }
+                        }
+                        if v.len() > 200_000 { break; }
+                    }
+                    format!("t:{}", if v.is_empty() { "-".to_string() } else { v.join(",") })
+                }
+                _ => "badop".to_string(),
+            };
+            out.push(r);
+        }
+        out.join(" ; ")
+    }).unwrap_or_else(|_| "Panic".into())
+}
+
+fn gen_ops(r: &mut Rng) -> String {
+    let n = r.range(4, 22);
+    let mut live = 0u64;
+    let mut v: Vec<String> = vec![];
+    for k in 0..n {
+        let c = if k < 2 { r.below(4) } else { r.below(22) };
+        let idx = if live == 0 { 0 } else if r.chance(1, 12) { live + r.below(2) } else { r.below(live) };
+        let s = match c {
+            0 => { live += 1; "Q".to_string() }
+            1 => { live += 1; "A".to_string() }
+            2 => { live += 1; "U".to_string() }
+            3 => { live += 1; "D".to_string() }
+            4 | 5 | 6 => format!("n{}", idx),
+            7 => { live += 1; format!("a{}", idx) }
+            8 | 9 | 10 | 11 => format!("r{}", idx),
+            12 | 13 => { live += 1; format!("s{}", idx) }
+            14 => "f".to_string(),
+            15 => "o".to_string(),
+            16 => "e".to_string(),
+            17 => "c".to_string(),
+            18 => "S".to_string(),
+            19 => "C".to_string(),
+            20 => format!("l{}", r.below(40)),
+            _ => "t".to_string(),
+        };
+        v.push(s);
+    }
+    v.join(",")
+}
+
+// ------------------------------------------------- T2: is_answer against another message
+
+fn obs_isans(m: &[u8], q: &[u8]) -> String {
+    let (m2, q2) = (m.to_vec(), q.to_vec());
+    catch(move || {
+        match (Message::from_slice(&m2), Message::from_slice(&q2)) {
+            (Ok(a), Ok(b)) => format!("{}", a.is_answer(b) as u8),
+            _ => "short".to_string(),
+        }
+    }).unwrap_or_else(|_| "Panic".into())
+}
+
+/// A message related to `m`: the same question with the id / QR / QDCOUNT / letter case / a label changed.
+fn related_query(r: &mut Rng, m: &[u8]) -> Vec<u8> {
+    let mut q = m.to_vec();
+    if q.len() < 12 { return q; }
+    for _ in 0..1 + r.below(2) {
+        match r.below(7) {
+            0 => { q[r.below(2) as usize] ^= 1 << r.below(8); }
+            1 => { q[2] ^= 0x80; }
+            2 => { q[5] = q[5].wrapping_add(1); }
+            3 | 4 => { for i in 12..q.len().min(80) { if q[i].is_ascii_alphabetic() && r.chance(1, 3) { q[i] ^= 0x20; } } }
+            5 => { if q.len() > 14 { let i = 13 + r.below((q.len() - 13).min(40) as u64) as usize; q[i] = q[i].wrapping_add(1); } }
+            _ => { q.truncate(12 + r.below((q.len() - 11) as u64) as usize); }
+        }
+    }
+    q
+}
+
+// ------------------------------------------------- T2: XFR first-message dispatch
+
+fn obs_xfr1(bytes: &[u8]) -> String {
+    let b2 = bytes.to_vec();
+    catch(move || {
+        let msg = match Message::from_octets(Bytes::from(b2.clone())) { Ok(m) => m, Err(_) => return "short".to_string() };
+        // the model does not decide first records of a type without schema row
+        let undecided = {
+            let h = msg.header(); let c = msg.header_counts();
+            let pre = !msg.is_error() && h.qr() && h.opcode() == domain::base::iana::Opcode::QUERY && !h.tc() && c.ancount() != 0 && c.nscount() == 0 && c.qdcount() == 1;
+            pre && matches!(msg.qtype(), Some(Rtype::AXFR) | Some(Rtype::IXFR)) && match msg.answer() {
+                Ok(mut a) => match a.next() { Some(Ok(r)) => [45u16].contains(&r.rtype().to_int()), _ => false },
+                Err(_) => false,
+            }
+        };
+        if undecided { return "?".to_string(); }
+        let mut interp = XfrResponseInterpreter::new();
+        let r = match interp.interpret_response(msg) {
+            Ok(_) => "Ok".to_string(),
+            Err(domain::net::xfr::protocol::Error::NotValidXfrResponse) => "10".to_string(),
+            Err(domain::net::xfr::protocol::Error::ParseError(_)) => "11".to_string(),
+            Err(domain::net::xfr::protocol::Error::Malformed) => "12".to_string(),
+            Err(_) => "other".to_string(),
+        };
+        r
+    }).unwrap_or_else(|_| "Panic".into())
+}
+
 // ------------------------------------------------- T2: message framing transcript
 
 /// Framing transcript of a message (what the Coq `read_all` computes):
@@ -696,7 +899,7 @@ fn built_message(r: &mut Rng) -> Vec<u8> {
         let mut cur = qname.clone();
         macro_rules! push_some { ($b:expr, $n:expr) => {{
             for _ in 0..$n {
-                let owner = if r.chance(1, 3) { cur.clone() } else { rand_name_wire(r, &pool) };
+                let owner = if r.chance(1, 3) { let mut o = cur.clone(); if r.chance(1, 2) { for b in o.iter_mut() { if b.is_ascii_alphabetic() && r.chance(1, 3) { *b ^= 0x20; } } } o } else { rand_name_wire(r, &pool) };
                 let ttl = Ttl::from_secs(r.u32() >> (r.below(32) as u32));
                 match r.below(9) {
                     0 => { let _ = $b.push((name_of(&owner), ttl, A::from_octets(r.u8(), r.u8(), r.u8(), r.u8()))); }
@@ -981,6 +1184,7 @@ fn main() {
 
 fn real_main() {
     let a = args();
+    if a.extra.len() >= 3 && a.extra[0] == "debugops" { println!("{}", obs_ops(&unhex(&a.extra[1]), &a.extra[2])); return; }
     let mut out = Out::new(&a, "C01", 25);
     install_hook();
     let mut r = Rng::new(a.seed);
@@ -1005,11 +1209,35 @@ fn real_main() {
             out.begin(&c);
             let o = obs_pname(m, p, lim);
             out.case(&c, &o, o.starts_with("Ok"), "pname");
+            if o.starts_with("Ok") && (kind == "corpus" || r.chance(1, 3)) {
+                let c = format!("pops {} {} {}", lim, p, hex(m));
+                out.begin(&c);
+                let o = obs_pops(m, p, lim);
+                out.check(o != "Panic", "panic_name_ops", &c, "split_first / parent / iter_suffixes / next_back / as_flat_slice panicked on a parsed name");
+                out.case(&c, &o, true, "pops");
+            }
             if kind == "corpus" || r.chance(1, 3) {
                 let c = format!("skip {} {} {}", lim, p, hex(m));
                 out.begin(&c);
                 let o = obs_skip(m, p, lim);
                 out.case(&c, &o, o.starts_with("Ok"), "skip");
+            }
+        }
+        // parser limits exactly at / one short of / one beyond the end of a name
+        for &p in positions.iter().take(2) {
+            if p > m.len() { continue; }
+            let full = obs_pname(m, p, m.len());
+            let end: Option<usize> = if full.starts_with("Ok ") { full.split(' ').nth(4).and_then(|x| x.parse().ok()) } else { None };
+            if let Some(e) = end {
+                for lim in [e.saturating_sub(1), e, e + 1] {
+                    if lim < p || lim > m.len() { continue; }
+                    let c = format!("pname {} {} {}", lim, p, hex(m));
+                    let o = obs_pname(m, p, lim);
+                    out.case(&c, &o, o.starts_with("Ok"), "pname_boundary");
+                    let c = format!("skip {} {} {}", lim, p, hex(m));
+                    let o = obs_skip(m, p, lim);
+                    out.case(&c, &o, o.starts_with("Ok"), "skip_boundary");
+                }
             }
         }
         for st in [12usize, *positions.last().unwrap()] {
@@ -1029,6 +1257,30 @@ fn real_main() {
         out.begin(&c);
         let o = obs_msg(m);
         out.case(&c, &o, m.len() > 12, "msgframe");
+        for _ in 0..1 {
+            let ops = gen_ops(r);
+            let c = format!("ops {} {}", hex(m), ops);
+            out.begin(&c);
+            let o = obs_ops(m, &ops);
+            out.check(o != "Panic", "panic_op_sequence", &c, "a sequence of read-side calls panicked");
+            out.case(&c, &o, m.len() > 12, "ops");
+        }
+        {
+            let q = if r.chance(1, 4) { query.clone() } else { related_query(r, m) };
+            let c = format!("isans {} {}", hex(m), hex(&q));
+            out.begin(&c);
+            let o = obs_isans(m, &q);
+            out.case(&c, &o, o == "1", "isans");
+            let c = format!("isans {} {}", hex(&q), hex(m));
+            let o = obs_isans(&q, m);
+            out.case(&c, &o, o == "1", "isans");
+        }
+        if kind == "xfrmsg" || r.chance(1, 6) {
+            let c = format!("xfr1 {}", hex(m));
+            out.begin(&c);
+            let o = obs_xfr1(m);
+            out.case(&c, &o, o == "Ok" || o == "12", "xfr1");
+        }
     };
 
     // fixed name-parsing cases: (message, pos, lim)
@@ -1097,21 +1349,22 @@ fn real_main() {
     {
         let mut rr = Rng::new(a.seed ^ 0x5151);
         let m = built_message(&mut rr);
-        for cut in 0..=m.len() { run_msg(&mut out, &mut r, &m[..cut], "truncate", &mut idx, cut % 3 == 0); }
+        for cut in 0..=m.len() { run_msg(&mut out, &mut r, &m[..cut], "truncate", &mut idx, true); }
     }
     let n_built = 1500 * scale;
     for i in 0..n_built {
         let m = built_message(&mut r);
         run_msg(&mut out, &mut r, &m, "built", &mut idx, true);
-        for _ in 0..5 { let mm = mutate(&mut r, &m); run_msg(&mut out, &mut r, &mm, "mutated", &mut idx, i % 2 == 0); }
+        for _ in 0..5 { let mm = mutate(&mut r, &m); run_msg(&mut out, &mut r, &mm, "mutated", &mut idx, i % 3 == 0); }
     }
     for _ in 0..300 * scale { let m = long_via_pointer(&mut r); run_msg(&mut out, &mut r, &m, "longptr", &mut idx, true); }
-    for i in 0..4000 * scale { let m = raw_random(&mut r); run_msg(&mut out, &mut r, &m, "random", &mut idx, i % 2 == 0); }
+    for i in 0..4000 * scale { let m = raw_random(&mut r); run_msg(&mut out, &mut r, &m, "random", &mut idx, i % 3 == 0); }
     for _ in 0..600 * scale {
         idx += 1;
         if !out.wants(idx) { continue; }
         let ms = xfr_messages(&mut r);
         oracle_xfr(&mut out, &ms);
+        if let Some(first) = ms.first() { let f = first.clone(); let t2 = idx % 2 == 0; run_msg(&mut out, &mut r, &f, "xfrmsg", &mut idx, t2); }
     }
     if a.thorough {
         // a few maximal messages
